@@ -40,6 +40,9 @@ func factsOnEdge(fa *Facts, pred, succ *ssa.BasicBlock) factSet {
 
 func knownNilIn(fs factSet, v ssa.Value, wantNil bool) bool {
 	rv := resolve(v)
+	if !wantNil && isNonNilErrValue(rv, 0) {
+		return true
+	}
 	for k := range fs {
 		bo, ok := k.v.(*ssa.BinOp)
 		if !ok || (bo.Op != token.EQL && bo.Op != token.NEQ) {
@@ -379,6 +382,9 @@ func chanDesc(v ssa.Value) string {
 // is closed.
 func insideOnceDo(f *ssa.Function, ch ssa.Value) (bool, string) {
 	if f.Parent() == nil {
+		if methodOnlyRunByOwnOnce(f) {
+			return true, ""
+		}
 		return false, "the close is not inside a function literal handed to sync.Once.Do"
 	}
 	// find the MakeClosure of f in its parent
@@ -642,13 +648,19 @@ func ruleChildSignOn(c *Ctx) {
 		c.Bad("R4", "scope.(*Scope).close signs off", 0, "anchor not found")
 		return
 	}
-	facts := factsFor(cl)
 	k := 0
-	for _, ci := range Calls(cl) {
-		if ci.Method != nil && ci.Method.Name() == "DoneTask" {
-			k++
-			recv := ci.Recv()
-			c.Check(facts.KnownNil(ci.Block, recv, false), "R4", "scope.(*Scope).close signs off", ci.Pos(), "DoneTask only on a non-nil registered parent", "DoneTask is called without the parent being known non-nil")
+	// the sign-off may live in a private helper of close()
+	for _, g := range append([]*ssa.Function{cl}, reachableSamePkg(cl, 2)...) {
+		if g != cl && (g.Signature.Recv() == nil || (g.Object() != nil && g.Object().Exported())) {
+			continue
+		}
+		facts := factsFor(g)
+		for _, ci := range Calls(g) {
+			if ci.Method != nil && ci.Method.Name() == "DoneTask" {
+				k++
+				recv := ci.Recv()
+				c.Check(facts.KnownNil(ci.Block, recv, false), "R4", "scope.(*Scope).close signs off", ci.Pos(), "DoneTask only on a non-nil registered parent", "DoneTask is called without the parent being known non-nil")
+			}
 		}
 	}
 	if k == 0 {
@@ -781,4 +793,76 @@ func closeUnderFlagLock(le *LockEngine, f *ssa.Function, call *ssa.Call) bool {
 		})
 	})
 	return okFlag
+}
+
+// methodOnlyRunByOwnOnce: f is a method that is never called directly; its only
+// uses are method values x.f handed to (&x.once).Do of the same object x.
+func methodOnlyRunByOwnOnce(f *ssa.Function) bool {
+	if f.Signature.Recv() == nil || f.Pkg == nil || f.Object() == nil {
+		return false
+	}
+	uses := 0
+	ok := true
+	var all []*ssa.Function
+	seen := map[*ssa.Function]bool{}
+	var collect func(g *ssa.Function)
+	collect = func(g *ssa.Function) {
+		if g == nil || seen[g] {
+			return
+		}
+		seen[g] = true
+		all = append(all, g)
+		for _, a := range g.AnonFuncs {
+			collect(a)
+		}
+	}
+	for _, m := range f.Pkg.Members {
+		if g, isF := m.(*ssa.Function); isF {
+			collect(g)
+		}
+		if t, isT := m.(*ssa.Type); isT {
+			for _, tt := range []types.Type{t.Type(), types.NewPointer(t.Type())} {
+				ms := f.Prog.MethodSets.MethodSet(tt)
+				for i := 0; i < ms.Len(); i++ {
+					collect(f.Prog.MethodValue(ms.At(i)))
+				}
+			}
+		}
+	}
+	for _, g := range all {
+		if g.Blocks == nil {
+			continue
+		}
+		for _, ci := range Calls(g) {
+			if ci.Static == f && g.Synthetic == "" {
+				ok = false // called directly somewhere
+			}
+		}
+		eachInstr(g, func(_ *ssa.BasicBlock, _ int, in ssa.Instruction) {
+			mc, isMC := in.(*ssa.MakeClosure)
+			if !isMC {
+				return
+			}
+			w, isF := mc.Fn.(*ssa.Function)
+			if !isF || w.Object() != f.Object() || len(mc.Bindings) != 1 {
+				return
+			}
+			for _, r := range *mc.Referrers() {
+				if _, isDbg := r.(*ssa.DebugRef); isDbg {
+					continue
+				}
+				uses++
+				ci := callInfo(r, nil, 0)
+				if ci == nil || ci.Static == nil || qualName(ci.Static) != "sync.(Once).Do" || ci.Kind != "call" {
+					ok = false
+					continue
+				}
+				ofa, isFA := ci.Recv().(*ssa.FieldAddr)
+				if !isFA || keyP(ofa.X) != keyP(mc.Bindings[0]) {
+					ok = false
+				}
+			}
+		})
+	}
+	return ok && uses > 0
 }
